@@ -35,6 +35,28 @@ struct Ctx {
   int nextEvent = 0;
   explicit Ctx(ASTContext &C) : C(C), SM(C.getSourceManager()) {}
 
+  // locals of the function being extracted: a second declaration of a name (another scope) gets a suffix, so that
+  // two variables that merely share a spelling are two variables in the facts
+  std::map<const VarDecl *, std::string> LocalNames;
+  void collectLocals(const Stmt *S, std::map<std::string, int> &seen) {
+    if (!S) return;
+    if (auto *DS = dyn_cast<DeclStmt>(S))
+      for (const Decl *D : DS->decls())
+        if (auto *VD = dyn_cast<VarDecl>(D)) {
+          std::string n = VD->getNameAsString();
+          int k = ++seen[n];
+          LocalNames[VD] = k == 1 ? n : n + "#" + std::to_string(k);
+        }
+    for (const Stmt *Ch : S->children()) collectLocals(Ch, seen);
+  }
+  std::string varName(const ValueDecl *VD) {
+    if (auto *V = dyn_cast<VarDecl>(VD)) {
+      auto it = LocalNames.find(V);
+      if (it != LocalNames.end()) return it->second;
+    }
+    return VD->getNameAsString();
+  }
+
   std::string loc(SourceLocation L) {
     if (L.isInvalid()) return "?";
     SourceLocation E = SM.getExpansionLoc(L);
@@ -145,7 +167,7 @@ json::Value Ctx::expr(const Expr *E0) {
       return std::move(O);
     }
     if (isa<FunctionDecl>(VD)) { O["k"] = "func"; O["name"] = VD->getNameAsString(); return std::move(O); }
-    O["k"] = "var"; O["name"] = VD->getNameAsString();
+    O["k"] = "var"; O["name"] = varName(VD);
     std::string sc = "global";
     if (auto *V = dyn_cast<VarDecl>(VD)) {
       if (isa<ParmVarDecl>(V)) sc = "param";
@@ -258,7 +280,7 @@ struct FnExtractor {
       if (auto *FD = dyn_cast<FieldDecl>(ME->getMemberDecl()))
         return (FD->getParent()->getNameAsString() + "::" + FD->getNameAsString());
     if (auto *D = dyn_cast_or_null<DeclRefExpr>(E))
-      return ("var::" + D->getDecl()->getNameAsString());
+      return ("var::" + X.varName(D->getDecl()));
     return "unknown";
   }
 
@@ -310,7 +332,7 @@ struct FnExtractor {
       for (const Decl *D : DS->decls())
         if (auto *VD = dyn_cast<VarDecl>(D)) {
           Ev["id"] = X.nextEvent++; Ev["k"] = "decl"; Ev["loc"] = X.loc(VD->getLocation());
-          Ev["var"] = VD->getNameAsString(); Ev["t"] = X.typeStr(VD->getType());
+          Ev["var"] = X.varName(VD); Ev["t"] = X.typeStr(VD->getType());
           Ev["static"] = VD->isStaticLocal();
           if (VD->getType()->isArrayType())
             if (auto *CAT = X.C.getAsConstantArrayType(VD->getType())) Ev["array"] = (int64_t)CAT->getSize().getZExtValue();
@@ -336,6 +358,12 @@ struct FnExtractor {
       Ps.push_back(std::move(PO));
     }
     FO["params"] = std::move(Ps);
+    X.LocalNames.clear();
+    {
+      std::map<std::string, int> seen;
+      for (const ParmVarDecl *P : F->parameters()) seen[P->getNameAsString()] = 1;
+      X.collectLocals(F->getBody(), seen);
+    }
 
     CFG::BuildOptions BO;
     BO.setAllAlwaysAdd();
